@@ -17,7 +17,7 @@ from ..link import check_module
 from ..poly import Poly
 from ..roles import RoleFlow, check_call, name_role
 from ..terms import Terms, reify, plain, match, V, ANY, show, subterms, \
-    mk_cmp, is_none, method_calls, alternatives, layers
+    mk_cmp, is_none, method_calls, alternatives, layers, stores
 from ..util import calls_in, qual, formals, returns_of, raises_of, \
     raise_name, has_fact, decorator_names, bind
 
@@ -241,6 +241,30 @@ def r1_decorator(program, rep):
     rep.check(okg and okpush, "C18-R1", qual(ga), "the stack is merged "
               "oldest to newest (entering appends; later updates win)",
               construct="stack merge order", node=ga)
+    # a context owns its arguments: update_current_context() writes into
+    # this dictionary, which therefore must not be the caller's (or a shared
+    # default) object
+    ci = program.get(CX + ":Context.__init__")
+    TC = Terms(ci)
+    cps = formals(ci)
+    held = [b_ for b_ in TC.binds if b_.var == "self.context_arguments" and
+            b_.mode == "assign"]
+    okown = len(held) == 1
+    if okown:
+        v = TC._bind_term(held[0])
+        pv = plain(v)
+        okown = v[0] == "new" and pv in (
+            ("call", ("global", "dict"), (("param", cps[1]),), ()),
+            ("call", ("attr", ("param", cps[1]), "copy"), (), ()))
+    rep.check(okown, "C18-R1", qual(ci), "a context keeps a copy of the "
+              "arguments it is created with (later updates of the context "
+              "cannot reach the caller's or a shared default dictionary)",
+              construct="context owns its arguments", node=ci,
+              fail="Context.__init__ keeps the dictionary it is given: "
+                   "update_current_context() then writes into an object "
+                   "shared with the caller - e.g. the default "
+                   "initial_context of every MachineController - and the "
+                   "arguments of one controller leak into another")
     rep.floor("C18-R1", 8)
 
 
@@ -571,6 +595,45 @@ def r5_connection(program, rep):
               fail="spinn5_local_eth_coord indexes the offset table "
                    "wrongly: commands travel over another board's "
                    "connection when the root chip is not at the origin")
+    # a newly discovered board connection is probed over itself: it is in
+    # the connection table while the probe command is sent (that is how
+    # _get_connection finds it) and leaves the table if the probe fails
+    dc = program.get(MC + ":MachineController.discover_connections")
+    D = Terms(dc)
+    regs = [x for x in stores(D) if x[2] == CONNS and
+            x[4][0] in ("call", "callv") and
+            x[4][1][0] == "global" and x[4][1][1].endswith("SCPConnection")]
+    probes = [c for c in ast.walk(dc) if isinstance(c, ast.Call) and
+              call_name(c)[0] == "get_software_version"]
+    if len(regs) != 1 or len(probes) != 1:
+        raise AnalysisError("discover_connections: registration / probe of "
+                            "a new connection not found in the form "
+                            "analysed")
+    rn_, _, _, KEY, _ = regs[0]
+    pn_ = D.cfg.node_containing(probes[0])
+    pa = [D.term(a, pn_) for a in probes[0].args[:2]]
+    okd = D.cfg.dominates(rn_, pn_) and ("tuple",) + tuple(pa) == KEY
+    pops = [x for x in method_calls(D, ("pop", "__delitem__"))
+            if x[2] == CONNS and x[3][:1] == [KEY]]
+    okd = okd and not any(D.cfg.reaches(rn_, x[0]) and
+                          D.cfg.reaches(x[0], pn_) and
+                          x[0].kind != "handler" and
+                          not _in_handler(x[1]) for x in pops)
+    # on failure of the probe the entry is removed
+    handlers = [h for h in ast.walk(dc) if isinstance(h, ast.ExceptHandler)
+                and any(_inside(probes[0], b_) for t_ in ast.walk(dc)
+                        if isinstance(t_, ast.Try) and h in t_.handlers
+                        for b_ in t_.body)]
+    okd = okd and len(handlers) == 1 and any(
+        _inside(x[1], handlers[0]) for x in pops)
+    rep.check(okd, "C18-R5", qual(dc), "a discovered board's connection is "
+              "registered before it is probed (so the probe travels over "
+              "it) and removed again if the probe fails",
+              construct="probe over the new connection", node=dc,
+              fail="the probe of a newly discovered connection is not sent "
+                   "over that connection (it is registered only afterwards, "
+                   "or not removed on failure): an unreachable connection "
+                   "is kept and later commands for that board go nowhere")
     b = program.get(BMP + ":BMPController._send_scp")
     B = Terms(b)
     ps = formals(b)
@@ -637,6 +700,24 @@ def r5_connection(program, rep):
               "the board number on the wire", construct="BMP connection",
               node=b)
     rep.floor("C18-R5", 5)
+
+
+def _in_handler(node):
+    n = node
+    while n is not None:
+        if isinstance(n, ast.ExceptHandler):
+            return True
+        n = getattr(n, "_parent", None)
+    return False
+
+
+def _inside(node, anc):
+    n = node
+    while n is not None:
+        if n is anc:
+            return True
+        n = getattr(n, "_parent", None)
+    return False
 
 
 def r6_link(program, rep):
